@@ -425,6 +425,11 @@ impl Ctx {
         }
         let dir = format!("{}/replays", self.verif_dir);
         let _ = std::fs::create_dir_all(&dir);
+        // for curating known_findings.jsonl by hand: dump every collected violation as JSON lines
+        if let Ok(path) = std::env::var("VERIF_DUMP_VIOLATIONS") {
+            let lines: Vec<String> = viols.iter().map(|v| serde_json::to_string(&json!({"property": self.prop, "case": v.desc, "what": v.what})).unwrap()).collect();
+            let _ = std::fs::write(&path, lines.join("\n") + "\n");
+        }
         for v in viols.iter().take(20) {
             let key = canonical(&v.desc);
             let path = format!("{}/{}-{:016x}.json", dir, self.prop, fnv64(key.as_bytes()));
